@@ -88,6 +88,9 @@ func childFail(kind, format string, a ...interface{}) {
 	os.Exit(3)
 }
 
+// within reports whether f returns. After the first bound d it does not give up at once: a call
+// that is still running on a busy machine is waited for, a call whose goroutines are all blocked
+// on channels or locks is not (vlib.ConfirmDeadlock).
 func within(d time.Duration, f func()) bool {
 	done := make(chan struct{})
 	go func() { f(); close(done) }()
@@ -95,7 +98,15 @@ func within(d time.Duration, f func()) bool {
 	case <-done:
 		return true
 	case <-time.After(d):
-		return false
+		fin := func() bool {
+			select {
+			case <-done:
+				return true
+			default:
+				return false
+			}
+		}
+		return !vlib.ConfirmDeadlock(75*time.Second, fin)
 	}
 }
 
@@ -293,9 +304,9 @@ func runChild(job childJob) *vlib.Failure {
 			s = s[:1500]
 		}
 		return &vlib.Failure{Kind: kind, Msg: fmt.Sprintf("child process died (%v): %s", err, s)}
-	case <-time.After(120 * time.Second):
+	case <-time.After(300 * time.Second):
 		cmd.Process.Kill()
-		return vlib.Failf("child-hangs", "child process did not finish within 120 s")
+		return vlib.Failf("child-hangs", "child process did not finish within 300 s")
 	}
 }
 
